@@ -1,7 +1,7 @@
 // C04 (full solvers, Adj): copy of harness/adj_harness.cpp (same protocol) extended with the
 // friend probe for AdjCholDec, AdjGSO (+ICGS), AdjSVD (+SVD) and Adj:
 //   state   solver entry chol:  st <is_solved> <minx_t==ALL> list <null | k i1..ik>
-//           solver entry gso :  st <is_solved> <min_x_use_all> list <k sorted set>
+//           solver entry gso :  st <is_solved> <min_x_use_all> list <k sorted set> err <error_icgs2_defect != 0>
 //           solver entry svd :  st <is_solved> <decomposed> <minx==subset> list <null | k i…>
 //                                  defect <- | d> veq <- | 0|1> minV <0|1>
 //                               (defect, veq only when decomposed: `defect` is uninitialised before;
@@ -75,6 +75,9 @@ struct GamaVerifProbe {
   static void gso_state(const Gso& g, std::ostream& out) {
     out << "st " << (g.is_solved ? 1 : 0) << " " << (g.icgs.min_x_use_all ? 1 : 0) << " list " << g.icgs.minx.size();
     for (int i : g.icgs.minx) out << " " << i;
+    // round 5: the second-stage error counter ICGS::error_icgs2_defect (state of the long-lived ICGS object;
+    // only its sign is read, by AdjGSO::solve through icgs.error())
+    out << " err " << (g.icgs.error_icgs2_defect != 0 ? 1 : 0);
   }
   static void svd_state(const Svd& a, std::ostream& out) {
     const SVD<double, int, MVE>& s = a.svd;
